@@ -3476,3 +3476,48 @@ def elevated_vector(r: R, chk, quals: List[str], rule="ELEVATED-VECTOR", floor: 
                        func=q, construct=f"elevated vector repeats {seg(w, 30)}")
     chk.floor(rule, "elevated knot vectors written next to Operations.degree_increase", n, floor)
     return n
+
+
+# ---------------------------------------------------------------------------------------------------------
+# TRUNC-FLOAT: no integer obtained by truncating a float quotient is used on the path
+_TRUNC_CONTROL = "def control(n, i):\n    prod = 1\n    for j in range(i):\n        prod *= (n - j) / (i - j)\n    return int(prod)\n"
+
+
+def _truncated_quotients(fn):
+    """`int(x)` / `round(x)` / `math.floor(x)` where x is a local built with true divisions (`x *= a / b`, `x = y / z`)"""
+    quot = set()
+    for a in ast.walk(fn):
+        if isinstance(a, ast.AugAssign) and isinstance(a.target, ast.Name) and (isinstance(a.op, ast.Div) or any(isinstance(b, ast.BinOp) and isinstance(b.op, ast.Div) for b in ast.walk(a.value))):
+            quot.add(a.target.id)
+        elif isinstance(a, ast.Assign) and len(a.targets) == 1 and isinstance(a.targets[0], ast.Name) and any(isinstance(b, ast.BinOp) and isinstance(b.op, ast.Div) for b in ast.walk(a.value)):
+            quot.add(a.targets[0].id)
+    out = []
+    for c in ast.walk(fn):
+        if isinstance(c, ast.Call) and seg(c.func) in ("int", "round", "math.floor", "math.trunc", "np.int64") and len(c.args) >= 1:
+            a0 = c.args[0]
+            # a count such as int(np.ceil(np.log2(a / b))) is not a value: only a bare quotient / a local built from quotients
+            if (isinstance(a0, ast.Name) and a0.id in quot) or (isinstance(a0, ast.BinOp) and isinstance(a0.op, (ast.Div, ast.Mult)) and any(isinstance(b, ast.BinOp) and isinstance(b.op, ast.Div) for b in ast.walk(a0)) and not any(isinstance(b, ast.Call) for b in ast.walk(a0))):
+                out.append(c)
+    return out
+
+
+def trunc_float(r: R, chk, entries: List[str], rule="TRUNC-FLOAT"):
+    """A binomial / factorial computed as a product of float quotients and cut with int() is one too small as soon as a rounding
+    error falls below the integer (binom(7, 5) = 20, binom(8, 3) = 55): every function reachable from the entries is scanned for
+    an integer obtained that way.  Expected count zero: positive control embedded."""
+    from .divisions import reachable_functions
+
+    ctl = _truncated_quotients(ast.parse(_TRUNC_CONTROL).body[0])
+    n = 0
+    for q in reachable_functions(r, entries):
+        fi = r.prog.func(q) if r.has(q) else None
+        if fi is None or fi.module == "__classes__":
+            continue
+        n += 1
+        for c in _truncated_quotients(fi.node):
+            chk.ob(rule, f"{q}: `{seg(c, 30)}` is not a truncated float quotient", False, loc=f"{fi.module}.py:{c.lineno}",
+                   detail=f"{q}: `{seg(c, 40)}` cuts a product of float quotients down to an integer: a rounding error just below the integer makes it one too small (binom(7, 5) = 20 instead of 21) — reached from {entries[0]}, the coefficients built from it are wrong from a certain degree on, silently",
+                   func=q, construct=f"integer by truncation of a float quotient: {seg(c, 30)}")
+    chk.ob(rule, f"no integer on the path is a truncated float quotient ({n} functions reachable from {', '.join(entries)}; positive control {'recognised' if ctl else 'MISSING'})", bool(ctl), loc="",
+           detail="" if ctl else "the positive control of the rule is not recognised any more")
+    return n
